@@ -34,7 +34,7 @@ def Inv (cfg : Cfg) (snap cur : List Conn) : Prop :=
 
 theorem cleanup_idle (cfg : Cfg) (snap cur : List Conn) (closing : List (Conn × Reason))
     (hnd : cur.Nodup) (hinv : Inv cfg snap cur) :
-    idleCount (cleanup cfg snap cur closing).1 ≤ cfg.maxKeepalive := by
+    idleCount (cleanup cfg [] snap cur closing).1 ≤ cfg.maxKeepalive := by
   induction snap generalizing cur closing with
   | nil =>
     simp only [cleanup]
@@ -72,7 +72,8 @@ theorem cleanup_idle (cfg : Cfg) (snap cur : List Conn) (closing : List (Conn ×
           apply ih _ _ hnd
           by_cases hi : c.idle = true
           · right
-            simp only [hi, Bool.true_and, decide_eq_true_eq, Nat.not_lt] at hcond
+            simp only [hi, isReserved, List.contains_nil, Bool.not_false, Bool.and_self, Bool.true_and, decide_eq_true_eq,
+              Nat.not_lt] at hcond
             exact hcond
           · rcases hinv with h | h
             · left
@@ -109,25 +110,32 @@ theorem assignAll_idle (cfg : Cfg) (s : State) (rs done : List Req) :
     · exact ih s _
     · exact Nat.le_trans (ih _ _) (assignOne_idle cfg s r)
 
-/-- **C09.idle_bound** — once a pass completes, idle connections never outnumber the keep-alive
-limit (`min(max_connections, max_keepalive_connections)`, including 0), whatever the mix of
-idle / active / closed / expired connections and queued requests. -/
-theorem idle_bound (cfg : Cfg) (s : State) (hnd : s.conns.Nodup) :
+/-- **C09.idle_bound** — once a pass completes with no request left between "handed a connection" and "started on it"
+(always the case for sequential use, the property's quantifier), idle connections never outnumber the keep-alive limit
+(`min(max_connections, max_keepalive_connections)`, including 0), whatever the mix of idle / active / closed / expired
+connections and queued requests. (An idle connection that a concurrent request has just been handed is exempt until that
+request starts: closing it would fail or re-queue the request, finding F-C08-a.) -/
+theorem idle_bound (cfg : Cfg) (s : State) (hnd : s.conns.Nodup) (hnone : ∀ r ∈ s.reqs, r.conn = none) :
     idleCount (pass cfg s).conns ≤ cfg.maxKeepalive := by
-  simp only [pass]
+  have hres : (if cfg.protectAssigned then s.reqs.filterMap (·.conn) else []) = [] := by
+    split
+    · rw [List.filterMap_eq_nil_iff]
+      intro r hr; exact hnone r hr
+    · rfl
+  simp only [pass, hres]
   refine Nat.le_trans (assignAll_idle cfg _ _ _) ?_
   exact cleanup_idle cfg s.conns s.conns [] hnd (Or.inl (fun x hx _ => hx))
 
-theorem cleanup_removes (cfg : Cfg) (snap cur : List Conn) (closing : List (Conn × Reason))
+theorem cleanup_removes (cfg : Cfg) (res : List Nat) (snap cur : List Conn) (closing : List (Conn × Reason))
     (hnd : cur.Nodup) :
-    ∀ x ∈ (cleanup cfg snap cur closing).1, x ∈ cur ∧ (x ∈ snap → x.closed = false ∧ x.expired = false) := by
+    ∀ x ∈ (cleanup cfg res snap cur closing).1, x ∈ cur ∧ (x ∈ snap → x.closed = false ∧ x.expired = false) := by
   induction snap generalizing cur closing with
   | nil => intro x hx; exact ⟨by simpa [cleanup] using hx, by simp⟩
   | cons c rest ih =>
     intro x hx
     simp only [cleanup] at hx
     have hnd' : (cur.erase c).Nodup := hnd.erase c
-    have rem : ∀ cl, x ∈ (cleanup cfg rest (cur.erase c) cl).1 →
+    have rem : ∀ cl, x ∈ (cleanup cfg res rest (cur.erase c) cl).1 →
         x ∈ cur ∧ (x ∈ c :: rest → x.closed = false ∧ x.expired = false) := by
       intro cl hx'
       obtain ⟨h1, h2⟩ := ih (cur.erase c) cl hnd' x hx'
@@ -154,10 +162,10 @@ theorem cleanup_removes (cfg : Cfg) (snap cur : List Conn) (closing : List (Conn
 
 /-- **C09.never_hand_out_expired (a)** — after the house-keeping loop no connection that
 reported closed or expired is left in the pool (so none can be assigned by the second loop). -/
-theorem no_expired_left (cfg : Cfg) (s : State) (hnd : s.conns.Nodup) :
-    ∀ x ∈ (cleanup cfg s.conns s.conns []).1, x.closed = false ∧ x.expired = false := by
+theorem no_expired_left (cfg : Cfg) (res : List Nat) (s : State) (hnd : s.conns.Nodup) :
+    ∀ x ∈ (cleanup cfg res s.conns s.conns []).1, x.closed = false ∧ x.expired = false := by
   intro x hx
-  obtain ⟨h1, h2⟩ := cleanup_removes cfg s.conns s.conns [] hnd x hx
+  obtain ⟨h1, h2⟩ := cleanup_removes cfg res s.conns s.conns [] hnd x hx
   exact h2 h1
 
 theorem assignOne_assigns (cfg : Cfg) (s : State) (r : Req) (cid : Nat)
@@ -188,15 +196,16 @@ theorem assigned_is_available_or_new (cfg : Cfg) (s : State) (r : Req) (cid : Na
 
 theorem reuse_first_available (cfg : Cfg) (s : State) (r : Req) (c : Conn) (tl : List Conn)
     (hav : s.conns.filter (fun c => c.origin == r.origin && c.available) = c :: tl) :
-    assignOne cfg s r = (s, { r with conn := some c.id }) := by
+    (assignOne cfg s r).2 = { r with conn := some c.id } ∧ (assignOne cfg s r).1.conns = s.conns ∧
+    (assignOne cfg s r).1.closing = s.closing ∧ (assignOne cfg s r).1.nextId = s.nextId := by
   simp [assignOne, hav]
 
-theorem cleanup_closing (cfg : Cfg) (snap cur : List Conn) (closing : List (Conn × Reason))
+theorem cleanup_closing (cfg : Cfg) (res : List Nat) (snap cur : List Conn) (closing : List (Conn × Reason))
     (P : Conn × Reason → Prop) (hold : ∀ e ∈ closing, P e)
     (hexp : ∀ c, c.expired = true → P (c, .expired))
-    (hsur : ∀ c k, c.idle = true → surplusCount cfg (c :: []) ≥ 0 →
+    (hsur : ∀ c k, c.idle = true → isReserved res c = false →
       (∀ l : List Conn, surplusCount cfg l > cfg.maxKeepalive → idleCount l = k → P (c, .surplus k))) :
-    ∀ e ∈ (cleanup cfg snap cur closing).2, P e := by
+    ∀ e ∈ (cleanup cfg res snap cur closing).2, P e := by
   induction snap generalizing cur closing with
   | nil => simpa [cleanup] using hold
   | cons c rest ih =>
@@ -213,39 +222,40 @@ theorem cleanup_closing (cfg : Cfg) (snap cur : List Conn) (closing : List (Conn
         · exact hexp c he
       · split
         · rename_i hcond
-          simp only [Bool.and_eq_true, decide_eq_true_eq] at hcond
+          simp only [Bool.and_eq_true, decide_eq_true_eq, Bool.not_eq_eq_eq_not, Bool.not_true] at hcond
           apply ih
           intro e hem
           simp only [List.mem_append, List.mem_singleton] at hem
           rcases hem with h | rfl
           · exact hold e h
-          · exact hsur c _ hcond.1 (Nat.zero_le _) cur hcond.2 rfl
+          · exact hsur c _ hcond.1.1 hcond.1.2 cur hcond.2 rfl
         · exact ih _ _ hold
 
 /-- **C09.close_reasons** — with the surplus test counting *idle* connections (the repaired
 expression; `Gen.poolCountsIdleOnly` says what the current source does), every connection the
-house-keeping loop closes is expired, or idle while the idle connections outnumber the keep-alive
-limit. -/
-theorem close_reasons (cfg : Cfg) (hfix : cfg.countIdleOnly = true) (s : State) :
-    ∀ e ∈ (cleanup cfg s.conns s.conns []).2,
+house-keeping loop closes is expired, or idle, not handed to any request, while the idle connections outnumber the
+keep-alive limit. -/
+theorem close_reasons (cfg : Cfg) (hfix : cfg.countIdleOnly = true) (res : List Nat) (s : State) :
+    ∀ e ∈ (cleanup cfg res s.conns s.conns []).2,
       (e.2 = .expired ∧ e.1.expired = true) ∨
-      (∃ k, e.2 = .surplus k ∧ e.1.idle = true ∧ k > cfg.maxKeepalive) := by
-  apply cleanup_closing cfg s.conns s.conns []
+      (∃ k, e.2 = .surplus k ∧ e.1.idle = true ∧ isReserved res e.1 = false ∧ k > cfg.maxKeepalive) := by
+  apply cleanup_closing cfg res s.conns s.conns []
     (fun e => (e.2 = .expired ∧ e.1.expired = true) ∨
-      (∃ k, e.2 = .surplus k ∧ e.1.idle = true ∧ k > cfg.maxKeepalive)) (by simp)
+      (∃ k, e.2 = .surplus k ∧ e.1.idle = true ∧ isReserved res e.1 = false ∧ k > cfg.maxKeepalive)) (by simp)
   · intro c he; left; exact ⟨rfl, he⟩
-  · intro c k hi _ l hl hk
+  · intro c k hi hr l hl hk
     right
-    refine ⟨k, rfl, hi, ?_⟩
+    refine ⟨k, rfl, hi, hr, ?_⟩
     simp only [surplusCount, hfix, if_true] at hl
     simp only [idleCount] at hk
     omega
 
 /-- the second loop closes a connection only to make room at the connection limit, and only an
-idle one -/
+idle one that no request has been handed -/
 theorem eviction_reason (cfg : Cfg) (s : State) (r : Req) :
     (assignOne cfg s r).1.closing = s.closing ∨
     (∃ i, (assignOne cfg s r).1.closing = s.closing ++ [(i, .room)] ∧ i ∈ s.conns ∧ i.idle = true ∧
+      isReserved s.reserved i = false ∧
       ¬ s.conns.length < cfg.maxConn ∧
       s.conns.filter (fun c => c.origin == r.origin && c.available) = []) := by
   simp only [assignOne]
@@ -258,9 +268,10 @@ theorem eviction_reason (cfg : Cfg) (s : State) (r : Req) :
       split
       · rename_i i tl hi
         right
-        have hm : i ∈ s.conns.filter (·.idle) := by rw [hi]; simp
+        have hm : i ∈ s.conns.filter (fun c => c.idle && !(isReserved s.reserved c)) := by rw [hi]; simp
         obtain ⟨hm1, hm2⟩ := List.mem_filter.mp hm
-        exact ⟨i, rfl, hm1, hm2, hfull, hav⟩
+        simp only [Bool.and_eq_true, Bool.not_eq_eq_eq_not, Bool.not_true] at hm2
+        exact ⟨i, rfl, hm1, hm2.1, hm2.2, hfull, hav⟩
       · left; rfl
 
 /-- the repaired surplus expression is what the current source contains -/
@@ -270,8 +281,8 @@ theorem source_counts_idle_only : Gen.poolCountsIdleOnly = true := by decide
 limit 1, two active connections and one idle one — the idle connection is closed although only one
 connection is idle. -/
 theorem close_reasons_counterexample_107 :
-    let cfg : Cfg := { maxConn := 3, maxKeepalive := 1, newAvail := fun _ => false, countIdleOnly := false }
-    (cleanup cfg [Conn.mk 0 0 false false false false, Conn.mk 1 0 false false false false,
+    let cfg : Cfg := { maxConn := 3, maxKeepalive := 1, newAvail := fun _ => false, countIdleOnly := false, protectAssigned := false }
+    (cleanup cfg [] [Conn.mk 0 0 false false false false, Conn.mk 1 0 false false false false,
                   Conn.mk 2 1 false false true true]
       [Conn.mk 0 0 false false false false, Conn.mk 1 0 false false false false,
        Conn.mk 2 1 false false true true] []).2
